@@ -305,14 +305,24 @@ def _all_terms(case):
     return out
 
 
+def skip_compare(case):
+    """see C14.skip_compare: undocumented gdc- patterns are outside the model of the sort"""
+    for sp in case["files"].values():
+        if sp["kind"] == "json":
+            for k in ("version", "annotation-spec"):
+                v = sp["data"].get(k)
+                if isinstance(v, str) and not C14.documented(v):
+                    return True
+    return False
+
+
 def comparable(obs):
     return {"steps": [{"out": s["out"], "look": s["look"]} for s in obs["steps"]]}
 
 
 # ------------------------------------------------------------ the property
 def _documented(s):
-    import re
-    return not s.startswith("gdc-") or re.fullmatch(r"gdc-[0-9]+\.[0-9]+\.[0-9]+(-.*)?", s) is not None
+    return C14.documented(s)
 
 
 def _expect(case, names, typeok):
